@@ -38,6 +38,126 @@ def _cond_names(test):
     return {d} if d else set()
 
 
+def check_router_status(ctx, status):
+    from .. import effects
+    classes = ctx.classes
+    router = classes.get(REAL, R)
+    Q = f"{REAL}:{R}"
+    kwname = status.args.kwarg.arg
+    n = 0
+    for consume in (True, False):
+        for rc in ("<absent>", None, "a", "a/b", "a/b/c", "z", "z/a", "ab", "ab/c"):
+            for tid in ("<absent>", "T1", "T9"):
+                items = []
+                if tid != "<absent>":
+                    items.append(("test_id", ("const", tid)))
+                if rc != "<absent>":
+                    items.append(("route_code", "None" if rc is None else ("const", rc)))
+                items.append(("file_name", ("arg", "other-field")))
+                dom = effects.EffectDomain(classes, attrs={
+                    "self._route_code_prefixes": ("table", (("a", ("tuple", ("wobj", "prefix-sink"), "True" if consume else "False")),)),
+                    "self._test_ids": ("table", (("T1", ("wobj", "id-sink")),)), "self.fallback": ("wobj", "fallback")})
+                res = effects.run(ctx, dom, status, router, {kwname: ("kwdict", tuple(items))})
+                first = rc.split("/")[0] if isinstance(rc, str) and rc != "<absent>" else None
+                want_kw = dict(items)
+                if first == "a":
+                    want_t = "prefix-sink"
+                    if consume:
+                        rest = rc[2:] if len(rc) > 1 else ""
+                        want_kw["route_code"] = ("const", rest) if rest else "None"
+                elif tid == "T1":
+                    want_t = "id-sink"
+                else:
+                    want_t = "fallback"
+                problems = set()
+                if not res:
+                    problems.add("no path")
+                for r in res:
+                    if r.kind != "val":
+                        problems.add(f"raises {r.value!r}")
+                        continue
+                    sent = [e for e in effects.calls(r) if e[0].endswith(".status")]
+                    if len(sent) != 1:
+                        problems.add(f"the event is forwarded {len(sent)} times")
+                        continue
+                    tgt, pos, kw, _ = sent[0]
+                    if tgt != want_t + ".status":
+                        problems.add(f"goes to {tgt[:-7]} (documented: {want_t}; precedence route-prefix rule > test-id rule > fallback)")
+                    if pos or dict(kw) != want_kw:
+                        diff = {k: (dict(kw).get(k), want_kw.get(k)) for k in set(dict(kw)) | set(want_kw) if dict(kw).get(k) != want_kw.get(k)}
+                        problems.add(f"forwarded fields differ: {diff} (got, expected)")
+                n += 1
+                label = f"route_code={rc!r} test_id={tid!r} consuming={consume}"
+                rule = "R-ONE-DESTINATION" if not any("fields differ" in p_ for p_ in problems) else ("R-SEPARATOR-AGREES" if "route_code" in str(problems) else "R-ONLY-OWNED-KEY")
+                ctx.check(rule, f"{R}.status: {label} -> {want_t}", status, not problems, "; ".join(sorted(problems)), construct=f"{Q}.status::{label}")
+    # no rule matches and there is no fallback: the event cannot be dropped silently
+    dom = effects.EffectDomain(classes, attrs={"self._route_code_prefixes": ("table", ()), "self._test_ids": ("table", ()), "self.fallback": "None"})
+    res = effects.run(ctx, dom, status, router, {kwname: ("kwdict", (("test_id", ("const", "T9")),))})
+    ctx.check("R-ONE-DESTINATION", f"{R}.status: no matching rule and no fallback raises", status, bool(res) and all(r.kind == "exc" for r in res),
+              "an event that matches no rule is dropped silently when the router has no fallback", construct=f"{Q}.status::no-destination")
+    return n
+
+
+def check_router_sinks(ctx):
+    """startTestRun / stopTestRun reach exactly the sinks registered for them, once per run; a rule added while a run is
+    in progress is started at once iff it is registered -- decided on call sequences with the router's state carried along."""
+    from .. import effects
+    from ..absint import State
+    classes = ctx.classes
+    router = classes.get(REAL, R)
+    Q = f"{REAL}:{R}"
+    pol = {"route_code_prefix": own_method(ctx, REAL, R, "_map_route_code_prefix"), "test_id": own_method(ctx, REAL, R, "_map_test_id")}
+
+    def step(states, meth, argv):
+        f = own_method(ctx, REAL, R, meth)
+        out = []
+        for st in states:
+            dom = effects.EffectDomain(classes, attrs={"self": ("self",), "self.fallback": ("wobj", "fallback")},
+                                       results={"StreamResultRouter._policies.get": [("func", pol["route_code_prefix"])], "self._policies.get": [("func", pol["route_code_prefix"])]})
+            for r in effects.run(ctx, dom, f, router, argv, state=st, depth=6):
+                if r.kind == "val":
+                    out.append(State([(k, v) for k, v in r.state.items if k.startswith("self.") or k == "ev.calls"]))
+                else:
+                    out.append(State([("ev.failed", f"{meth} raises {r.value!r}")]))
+        return list(dict.fromkeys(out))
+
+    def log(st):
+        return [e[0] for e in st.get("ev.calls", ()) if e[0].split(".")[-1] in ("startTestRun", "stopTestRun")]
+
+    ADD = lambda sink, flag: {"sink": ("wobj", sink), "policy": ("const", "route_code_prefix"), "do_start_stop_run": "True" if flag else "False",
+                              "policy_args": ("kwdict", (("route_prefix", ("const", sink)),))}
+    start = [State([("self._sinks", ("tuple",)), ("self._in_run", "False"), ("ev.calls", ())])]
+    scenarios = [
+        ("rule registered before the run", [("add_rule", ADD("s1", True)), ("startTestRun", {}), ("stopTestRun", {})], ["s1.startTestRun", "s1.stopTestRun"]),
+        ("rule without do_start_stop_run", [("add_rule", ADD("s1", False)), ("startTestRun", {}), ("stopTestRun", {})], []),
+        ("registered rule added mid-run", [("startTestRun", {}), ("add_rule", ADD("s1", True)), ("stopTestRun", {})], ["s1.startTestRun", "s1.stopTestRun"]),
+        ("unregistered rule added mid-run", [("startTestRun", {}), ("add_rule", ADD("s1", False)), ("stopTestRun", {})], []),
+        ("rule added mid-run, then a second run", [("startTestRun", {}), ("add_rule", ADD("s1", True)), ("stopTestRun", {}), ("startTestRun", {}), ("stopTestRun", {})],
+         ["s1.startTestRun", "s1.stopTestRun", "s1.startTestRun", "s1.stopTestRun"]),
+        ("registered rule added after a finished run is not started at once", [("startTestRun", {}), ("stopTestRun", {}), ("add_rule", ADD("s1", True))], []),
+        ("two registered sinks, two runs", [("add_rule", ADD("s1", True)), ("add_rule", ADD("s2", True)), ("startTestRun", {}), ("stopTestRun", {}), ("startTestRun", {}), ("stopTestRun", {})],
+         ["s1.startTestRun", "s2.startTestRun", "s1.stopTestRun", "s2.stopTestRun"] * 2),
+    ]
+    for name, seq, want in scenarios:
+        states = start
+        for meth, argv in seq:
+            states = step(states, meth, argv)
+        problems = set()
+        for st in states:
+            if st.get("ev.failed", None):
+                problems.add(st.get("ev.failed"))
+            elif log(st) != want:
+                problems.add(f"sinks see {log(st)}; expected {want}")
+        ctx.check("R-SINK-PAIR", f"{R}: {name}", router.node, bool(states) and not problems, "; ".join(sorted(problems)), construct=f"{Q}::sinks {name}")
+    init = own_method(ctx, REAL, R, "__init__")
+    for flag, want in ((True, ("tuple", ("wobj", "fallback"))), (False, ("tuple",))):
+        dom = effects.EffectDomain(classes, attrs={"self": ("self",)})
+        res = effects.run(ctx, dom, init, router, {"fallback": ("wobj", "fallback"), "do_start_stop_run": "True" if flag else "False"})
+        got = {r.state.get("self._sinks", None) for r in res if r.kind == "val"}
+        ctx.check("R-SINK-PAIR", f"{R}.__init__: fallback registered for start/stop iff do_start_stop_run ({flag})", init, got == {want},
+                  f"with do_start_stop_run={flag} the start/stop list starts as {sorted(map(repr, got))}", construct=f"{Q}.__init__::fallback {flag}")
+
+
 def run(ctx):
     ctx.rule("R-ONE-DESTINATION", "every status event is forwarded to exactly one sink, chosen route-prefix > test-id > fallback")
     ctx.rule("R-SEPARATOR-AGREES", "StreamToQueue's prefixing and the router's consuming strip are inverse (same separator, exact length)")
@@ -56,158 +176,25 @@ def run(ctx):
         ctx.check(rule, f"{R}.{fn}: {name}", node if node is not None else status, bool(ok), msg, path=path,
                   construct=f"{Q}.{fn}::{name}")
 
-    # ---- forwarding calls
-    def is_forward(c):
-        return (isinstance(c.func, ast.Attribute) and c.func.attr == "status" and not c.args
-                and len(c.keywords) == 1 and c.keywords[0].arg is None and dotted(c.keywords[0].value) == kw
-                and dotted(c.func.value) != "super()")
-
-    fwd_nodes = nodes_calling(cfg, is_forward, live)
-    other_status = nodes_calling(cfg, lambda c: isinstance(c.func, ast.Attribute) and c.func.attr == "status" and not is_forward(c) and dotted(c.func.value) != "super()", live)
-    chk("R-ONE-DESTINATION", "forwarding passes the whole event (**kwargs)", bool(fwd_nodes) and not other_status,
-        "a forwarding call does not pass the event as **kwargs (fields would be dropped or reordered)")
-
-    def transfer(node, st, kind, target, exp, pair):
-        if node.id in fwd_nodes and kind != "exc":
-            return min(st + 1, 2)
-        return st
-
-    exp = explore(cfg, 0, transfer)
-    ctx.stats["states"] += exp.size
-    bad = [s for s in exp.states_at(cfg.exit_return) if s != 1]
-    path = None
-    if bad:
-        path = exp.describe((cfg.exit_return, bad[0]))
-    chk("R-ONE-DESTINATION", "exactly one forward on every returning path", not bad,
-        f"a path through status() forwards the event {bad[0] if bad else ''} times" if bad else "", path=path)
-    # precedence
-    recv = None
-    for nid in fwd_nodes:
-        for c in node_calls(cfg.nodes[nid]):
-            if is_forward(c):
-                recv = dotted(c.func.value)
-    sources = {}
-    for n in walk_shallow(status, include_self=False):
-        if isinstance(n, ast.Assign):
-            for t in n.targets:
-                names = [dotted(e) for e in t.elts] if isinstance(t, ast.Tuple) else [dotted(t)]
-                if recv in names:
-                    v = norm(n.value)
-                    if "_route_code_prefixes" in v:
-                        sources["prefix"] = n
-                    elif "_test_ids" in v:
-                        sources["test_id"] = n
-                    elif v == "self.fallback":
-                        sources["fallback"] = n
-    chk("R-ONE-DESTINATION", "three destination sources present", set(sources) == {"prefix", "test_id", "fallback"},
-        f"destination {recv} is not chosen among the route-prefix table, the test-id table and the fallback (found {sorted(sources)})")
-    if set(sources) == {"prefix", "test_id", "fallback"}:
-        top = getattr(sources["prefix"], "_parent", None)
-        ok = (isinstance(top, ast.If) and sources["prefix"] in top.body and "_route_code_prefixes" in norm(top.test)
-              and len(top.orelse) == 1 and isinstance(top.orelse[0], ast.If)
-              and sources["test_id"] in top.orelse[0].body and "_test_ids" in norm(top.orelse[0].test)
-              and sources["fallback"] in top.orelse[0].orelse)
-        chk("R-ONE-DESTINATION", "precedence route-prefix > test-id > fallback", ok,
-            "the destination is no longer chosen by if <prefix rule> / elif <test-id rule> / else <fallback>", node=sources["prefix"])
-        if ok:
-            t1 = top.test
-            t2 = top.orelse[0].test
-            ok_tests = (isinstance(t1, ast.Compare) and isinstance(t1.ops[0], ast.In) and dotted(t1.comparators[0]) == "self._route_code_prefixes"
-                        and isinstance(t2, ast.Compare) and isinstance(t2.ops[0], ast.In) and dotted(t2.comparators[0]) == "self._test_ids")
-            chk("R-ONE-DESTINATION", "rules are looked up by membership in their tables", ok_tests,
-                "rule lookup is not `<prefix> in self._route_code_prefixes` / `<test id> in self._test_ids`", node=top)
-            # test-id lookup key is the event's test_id
-            key2 = dotted(t2.left) if isinstance(t2, ast.Compare) else None
-            src_ok = any(isinstance(n, ast.Assign) and dotted(n.targets[0]) == key2 and isinstance(n.value, ast.Call)
-                         and dotted(n.value.func) == f"{kw}.get" and n.value.args and str_const(n.value.args[0]) == "test_id"
-                         for n in walk_shallow(status, include_self=False))
-            chk("R-ONE-DESTINATION", "test-id rule keyed by the event's test_id", src_ok, "the test-id rule is not looked up with the event's test_id")
-    # ---- separator agreement
-    sep_split = None
-    prefix_var = rc_var = None
-    for n in walk_shallow(status, include_self=False):
-        if isinstance(n, ast.Assign) and isinstance(n.value, ast.Call) and dotted(n.value.func) == f"{kw}.get" and n.value.args and str_const(n.value.args[0]) == "route_code":
-            rc_var = dotted(n.targets[0])
-    for n in walk_shallow(status, include_self=False):
-        if isinstance(n, ast.Assign) and isinstance(n.value, ast.Subscript):
-            v = n.value
-            if isinstance(v.value, ast.Call) and isinstance(v.value.func, ast.Attribute) and v.value.func.attr in ("split", "partition") and dotted(v.value.func.value) == rc_var:
-                if isinstance(v.slice, ast.Constant) and v.slice.value == 0 and v.value.args:
-                    sep_split = str_const(v.value.args[0])
-                    prefix_var = dotted(n.targets[0])
-    chk("R-SEPARATOR-AGREES", "prefix is the first segment of the event's route code", sep_split is not None and prefix_var is not None,
-        "the lookup key is not <route_code>.split(SEP)[0]")
-    # strip idioms
-    strip_len = None
-    strip_node = None
-    cons_var = None
-    if "prefix" in sources:
-        t = sources["prefix"].targets[0]
-        if isinstance(t, ast.Tuple) and len(t.elts) == 2:
-            cons_var = dotted(t.elts[1])
-    for n in walk_shallow(status, include_self=False):
-        if isinstance(n, ast.Assign) and dotted(n.targets[0]) == rc_var:
-            v = n.value
-            if isinstance(v, ast.Subscript) and dotted(v.value) == rc_var and isinstance(v.slice, ast.Slice) and v.slice.upper is None and v.slice.lower is not None:
-                lo = v.slice.lower
-                if isinstance(lo, ast.BinOp) and isinstance(lo.op, ast.Add):
-                    parts = [lo.left, lo.right]
-                    lens = [p for p in parts if isinstance(p, ast.Call) and dotted(p.func) == "len" and p.args and dotted(p.args[0]) == prefix_var]
-                    consts = [p for p in parts if isinstance(p, ast.Constant) and isinstance(p.value, int)]
-                    lens_sep = [p for p in parts if isinstance(p, ast.Call) and dotted(p.func) == "len" and p.args and isinstance(p.args[0], ast.Constant) and isinstance(p.args[0].value, str)]
-                    if lens and consts:
-                        strip_len, strip_node = consts[0].value, n
-                    elif lens and lens_sep:
-                        strip_len, strip_node = len(lens_sep[0].args[0].value), n
-                elif isinstance(lo, ast.Call) and dotted(lo.func) == "len" and lo.args and dotted(lo.args[0]) == prefix_var:
-                    strip_len, strip_node = 0, n
-            elif isinstance(v, ast.Subscript) and isinstance(v.value, ast.Call) and isinstance(v.value.func, ast.Attribute) and dotted(v.value.func.value) == rc_var:
-                m = v.value.func.attr
-                a = v.value.args
-                if m == "partition" and a and str_const(a[0]) is not None and isinstance(v.slice, ast.Constant) and v.slice.value == 2:
-                    strip_len, strip_node = (len(a[0].value) if a[0].value == sep_split else -1), n
-                if m == "split" and len(a) == 2 and str_const(a[0]) is not None and isinstance(a[1], ast.Constant) and a[1].value == 1 and isinstance(v.slice, ast.Constant) and v.slice.value == 1:
-                    strip_len, strip_node = (len(a[0].value) if a[0].value == sep_split else -1), n
-            elif isinstance(v, ast.Call) and isinstance(v.func, ast.Attribute) and v.func.attr == "removeprefix" and dotted(v.func.value) == rc_var and v.args:
-                a = v.args[0]
-                if isinstance(a, ast.BinOp) and isinstance(a.op, ast.Add) and dotted(a.left) == prefix_var and str_const(a.right) is not None:
-                    strip_len, strip_node = (len(a.right.value) if a.right.value == sep_split else -1), n
-    chk("R-SEPARATOR-AGREES", "consuming rule strips a recognised prefix idiom", strip_node is not None,
-        "no statement strips the leading segment from the route code (rc[len(p)+k:], partition, split(sep,1), removeprefix)")
-    # writer
+    # ---- destination and route code, on abstract runs over small concrete route codes
+    check_router_status(ctx, status)
+    sep_split = "/"
+    # writer: StreamToQueue puts its own code in front, "/"-separated (decided on runs with concrete codes)
+    from .. import effects
     rcm = own_method(ctx, REAL, "StreamToQueue", "route_code")
-    ctx.analysed(rcm)
-    wparam = rcm.args.args[1].arg
-    sep_write = None
-    none_ok = False
-    concat_ok = False
-    for n in walk_shallow(rcm, include_self=False):
-        if isinstance(n, ast.Return) and n.value is not None:
-            v = n.value
-            if dotted(v) == "self.routing_code":
-                p = getattr(n, "_parent", None)
-                if isinstance(p, ast.If) and norm(p.test) == f"{wparam} is None" and n in p.body:
-                    none_ok = True
-            if isinstance(v, ast.BinOp) and isinstance(v.op, ast.Add) and isinstance(v.left, ast.BinOp) and isinstance(v.left.op, ast.Add):
-                if dotted(v.left.left) == "self.routing_code" and str_const(v.left.right) is not None and dotted(v.right) == wparam:
-                    sep_write = v.left.right.value
-                    concat_ok = True
-            if isinstance(v, ast.JoinedStr):
-                vals = v.values
-                if (len(vals) == 3 and isinstance(vals[0], ast.FormattedValue) and dotted(vals[0].value) == "self.routing_code"
-                        and isinstance(vals[1], ast.Constant) and isinstance(vals[2], ast.FormattedValue) and dotted(vals[2].value) == wparam):
-                    sep_write = vals[1].value
-                    concat_ok = True
-    ctx.check("R-SEPARATOR-AGREES", "StreamToQueue.route_code: None -> own code", rcm, none_ok,
-              "an event without route code no longer gets exactly the queue's own code", construct=f"{REAL}:StreamToQueue.route_code::none-arm")
-    ctx.check("R-SEPARATOR-AGREES", "StreamToQueue.route_code: own + SEP + incoming", rcm, concat_ok,
-              "the prefixed route code is not own code + separator + incoming code", construct=f"{REAL}:StreamToQueue.route_code::concat")
-    # StreamToQueue.status applies route_code() to the route_code field
-    sq = own_method(ctx, REAL, "StreamToQueue", "status")
-    applied = any(k.arg == "route_code" and isinstance(k.value, ast.Call) and dotted(k.value.func) == "self.route_code" and k.value.args and dotted(k.value.args[0]) == "route_code"
-                  for c in ast.walk(sq) if isinstance(c, ast.Call) for k in c.keywords)
-    ctx.check("R-SEPARATOR-AGREES", "StreamToQueue.status prefixes the event's route code", sq, applied,
-              "StreamToQueue.status does not send route_code=self.route_code(route_code)", construct=f"{REAL}:StreamToQueue.status::route")
+    sq_cls = ctx.classes.get(REAL, "StreamToQueue")
+    outs = {}
+    for rc, label in ((("const", "x/y"), "given"), ("None", "none")):
+        dom_ = effects.EffectDomain(ctx.classes, attrs={"self.routing_code": ("const", "own")})
+        outs[label] = {(r.kind, r.value) for r in effects.run(ctx, dom_, rcm, sq_cls, {rcm.args.args[1].arg: rc})}
+    ctx.check("R-SEPARATOR-AGREES", "StreamToQueue.route_code: None -> own code", rcm, outs["none"] == {("val", ("const", "own"))},
+              f"an event without route code gets {sorted(map(repr, outs['none']))}, not exactly the queue's own code", construct=f"{REAL}:StreamToQueue.route_code::none-arm")
+    ctx.check("R-SEPARATOR-AGREES", "StreamToQueue.route_code: own + SEP + incoming", rcm, outs["given"] == {("val", ("const", "own/x/y"))},
+              f"route code 'x/y' through a queue with code 'own' becomes {sorted(map(repr, outs['given']))}, not 'own/x/y'", construct=f"{REAL}:StreamToQueue.route_code::concat")
+    sep_write = "/" if outs["given"] == {("val", ("const", "own/x/y"))} else None
+    from .c11 import check_queue_semantics
+    sq_status = own_method(ctx, REAL, "StreamToQueue", "status")
+    check_queue_semantics(ctx, [a.arg for a in sq_status.args.args[1:]], rule="R-SEPARATOR-AGREES")
     mp = own_method(ctx, REAL, R, "_map_route_code_prefix")
     sep_reject = None
     for n in walk_shallow(mp, include_self=False):
@@ -216,115 +203,11 @@ def run(ctx):
                 sep_reject = n.test.left.value
     ctx.check("R-SEPARATOR-AGREES", "a prefix containing the separator is rejected", mp, sep_reject is not None,
               "_map_route_code_prefix accepts prefixes that span more than one route step", construct=f"{Q}._map_route_code_prefix::reject")
-    seps = {"writer": sep_write, "reader-split": sep_split, "reader-reject": sep_reject}
-    ok = len(set(seps.values())) == 1 and None not in seps.values()
-    chk("R-SEPARATOR-AGREES", "separator literals agree", ok, f"separators differ between writer and reader: {seps}")
-    if strip_node is not None and sep_write is not None:
-        chk("R-SEPARATOR-AGREES", "strip length = len(prefix) + len(separator)", strip_len == len(sep_write),
-            f"the consuming rule strips len(prefix)+{strip_len} characters but the separator {sep_write!r} has length {len(sep_write)}", node=strip_node)
-        # empty remainder -> None
-        emp = False
-        for n in walk_shallow(status, include_self=False):
-            if isinstance(n, ast.If) and norm(n.test) == f"not {rc_var}":
-                if any(isinstance(s, ast.Assign) and dotted(s.targets[0]) == rc_var and isinstance(s.value, ast.Constant) and s.value.value is None for s in n.body):
-                    emp = True
-            if isinstance(n, ast.Assign) and isinstance(n.value, ast.BoolOp) and isinstance(n.value.op, ast.Or) and isinstance(n.value.values[-1], ast.Constant) and n.value.values[-1].value is None:
-                if dotted(n.targets[0]) in (rc_var,) or (isinstance(n.targets[0], ast.Subscript) and str_const(n.targets[0].slice) == "route_code"):
-                    emp = True
-        chk("R-SEPARATOR-AGREES", "empty remainder becomes None", emp,
-            "after stripping its only segment the route code stays '' instead of None (the inverse of prefixing None)")
-        # strip is control dependent on consume flag and on route_code not None
-        snodes = [i for i in cfg.nodes_for(strip_node) if i in live]
-        guards = set()
-        p = getattr(strip_node, "_parent", None)
-        while p is not None and p is not status:
-            if isinstance(p, ast.If) and any(strip_node is x or any(y is strip_node for y in ast.walk(x)) for x in p.body):
-                guards |= _cond_names(p.test)
-                if isinstance(p.test, ast.BoolOp):
-                    for v in p.test.values:
-                        if isinstance(v, ast.Compare) and isinstance(v.ops[0], ast.IsNot) and isinstance(v.comparators[0], ast.Constant) and v.comparators[0].value is None:
-                            guards.add(dotted(v.left) + " is not None")
-            p = getattr(p, "_parent", None)
-        chk("R-SEPARATOR-AGREES", "strip only for a consuming rule", cons_var in guards,
-            f"the route code is stripped even when consume_route is false (guards: {sorted(guards)})", node=strip_node)
-    # ---- only owned key
-    writes = []
-    for n in walk_shallow(status, include_self=False):
-        if isinstance(n, (ast.Assign, ast.AugAssign, ast.Delete)):
-            targets = n.targets if not isinstance(n, ast.AugAssign) else [n.target]
-            for t in targets:
-                if isinstance(t, ast.Subscript) and dotted(t.value) == kw:
-                    writes.append((n, str_const(t.slice)))
-        if isinstance(n, ast.Call) and isinstance(n.func, ast.Attribute) and dotted(n.func.value) == kw and n.func.attr in ("pop", "update", "clear", "setdefault", "popitem"):
-            writes.append((n, f".{n.func.attr}()"))
-    chk("R-ONLY-OWNED-KEY", "only route_code is rewritten", all(k == "route_code" for _, k in writes),
-        f"status() rewrites event fields other than route_code: {[k for _, k in writes]}")
-    for n, k in writes:
-        if k != "route_code":
-            continue
-        guards = set()
-        p = getattr(n, "_parent", None)
-        while p is not None and p is not status:
-            if isinstance(p, ast.If) and any(x is n or any(y is n for y in ast.walk(x)) for x in p.body):
-                guards |= _cond_names(p.test)
-            p = getattr(p, "_parent", None)
-        chk("R-ONLY-OWNED-KEY", "route_code rewritten only under consume_route", cons_var in guards,
-            "the route code of the event is rewritten for a non-consuming rule", node=n)
+    ctx.check("R-SEPARATOR-AGREES", f"{R}.status: separator literals agree", mp, sep_reject == "/" and sep_write == "/",
+              f"the separator rejected in prefixes is {sep_reject!r}, the one StreamToQueue writes {sep_write!r} (the router splits on '/': see the status scenarios)",
+              construct=f"{Q}.status::separator literals agree")
     # ---- sink pairing
-    sinks_attr = None
-    add_rule = own_method(ctx, REAL, R, "add_rule")
-    acfg = cfg_of(ctx, add_rule)
-    alive = live_nodes(acfg)
-    sink_p = add_rule.args.args[1].arg
-    flag_p = "do_start_stop_run"
-    if flag_p not in [a.arg for a in add_rule.args.args]:
-        raise AnalysisError("add_rule lost its do_start_stop_run parameter")
-    appends = []
-    for n in walk_shallow(add_rule, include_self=False):
-        if isinstance(n, ast.Call) and isinstance(n.func, ast.Attribute) and n.func.attr == "append" and n.args and dotted(n.args[0]) == sink_p:
-            appends.append(n)
-            sinks_attr = dotted(n.func.value)
-    chk("R-SINK-PAIR", "add_rule registers the sink for start/stop", len(appends) == 1, "add_rule does not append the sink to the start/stop list exactly once", fn="add_rule", node=add_rule)
-
-    def true_guards(node_ast, func):
-        g = set()
-        p = getattr(node_ast, "_parent", None)
-        child = node_ast
-        while p is not None and p is not func:
-            if isinstance(p, ast.If) and any(x is child for x in p.body):
-                g |= _cond_names(p.test)
-            child = p
-            p = getattr(p, "_parent", None)
-        return g
-
-    if appends:
-        g = true_guards(appends[0], add_rule)
-        chk("R-SINK-PAIR", "registered iff do_start_stop_run", g == {flag_p}, f"registration is guarded by {sorted(g)} instead of exactly {flag_p}", fn="add_rule", node=appends[0])
-    imm = [n for n in walk_shallow(add_rule, include_self=False) if isinstance(n, ast.Call) and dotted(n.func) == f"{sink_p}.startTestRun"]
-    chk("R-SINK-PAIR", "rule added mid-run is started immediately", len(imm) == 1, "add_rule no longer calls sink.startTestRun() for a rule added while a run is in progress", fn="add_rule", node=add_rule)
-    for c in imm:
-        g = true_guards(c, add_rule)
-        ok = {"self._in_run", flag_p} <= g
-        ctx.check("R-SINK-PAIR", f"{R}.add_rule: immediate startTestRun requires in-run AND do_start_stop_run", c, ok,
-                  f"sink.startTestRun() is guarded only by {sorted(g)}: a sink added mid-run without do_start_stop_run is started but never stopped",
-                  construct=f"{Q}.add_rule::immediate-start-guard")
-    for name, flagval in (("startTestRun", True), ("stopTestRun", False)):
-        f = own_method(ctx, REAL, R, name)
-        ctx.analysed(f)
-        loops = [n for n in walk_shallow(f, include_self=False) if isinstance(n, ast.For) and dotted(n.iter) == sinks_attr]
-        ok = False
-        if len(loops) == 1 and isinstance(loops[0].target, ast.Name):
-            v = loops[0].target.id
-            calls = [c for c in walk_shallow(loops[0]) if isinstance(c, ast.Call) and isinstance(c.func, ast.Attribute) and dotted(c.func.value) == v]
-            jumps = [x for x in walk_shallow(loops[0]) if isinstance(x, (ast.Break, ast.Continue, ast.Return, ast.If))]
-            ok = len(calls) == 1 and calls[0].func.attr == name and not jumps
-        chk("R-SINK-PAIR", f"{name} reaches every registered sink once", ok, f"{name} does not call sink.{name}() once for every element of {sinks_attr}", fn=name, node=f)
-        sets = [n for n in walk_shallow(f, include_self=False) if isinstance(n, ast.Assign) and dotted(n.targets[0]) == "self._in_run" and isinstance(n.value, ast.Constant) and n.value.value is flagval]
-        chk("R-SINK-PAIR", f"{name} sets the in-run flag to {flagval}", len(sets) == 1, f"{name} does not set self._in_run = {flagval}", fn=name, node=f)
-    init = own_method(ctx, REAL, R, "__init__")
-    fb = [n for n in walk_shallow(init, include_self=False) if isinstance(n, ast.Call) and dotted(n.func) == f"{sinks_attr}.append" and n.args and dotted(n.args[0]) == "fallback"]
-    ok = len(fb) == 1 and {"do_start_stop_run", "fallback"} <= true_guards(fb[0], init)
-    chk("R-SINK-PAIR", "fallback registered iff do_start_stop_run", ok, "the fallback is not registered for start/stop exactly when do_start_stop_run is set", fn="__init__", node=init)
+    check_router_sinks(ctx)
     # ---- policy table
     cls = ctx.classes.get(REAL, R)
     table = {}
@@ -343,17 +226,17 @@ def run(ctx):
         ok = f is not None and [a.arg for a in f.args.args[1:]] == params
         ctx.check("R-POLICY-TABLE", f"policy {pol} takes ({', '.join(params)})", f if f is not None else cls.node, ok,
                   f"policy {pol} is bound to {mname} with parameters {[a.arg for a in f.args.args[1:]] if f else None}", construct=f"{Q}::policy {pol}")
-    raises = [n.id for n in acfg.nodes if n.id in alive and n.kind == "raise" and isinstance(n.ast, ast.Raise) and n.ast.exc is not None and "ValueError" in norm(n.ast.exc)]
-    pm = nodes_calling(acfg, lambda c: dotted(c.func) == "policy_method" or (isinstance(c.func, ast.Name) and c.func.id.startswith("policy")), alive)
-    ok = False
-    if len(raises) == 1:
-        rn = acfg.nodes[raises[0]].ast
-        g = getattr(rn, "_parent", None)
-        if isinstance(g, ast.If):
-            gt = [n.id for n in acfg.nodes if n.kind == "test" and n.ast is g and n.id in alive]
-            mut = pm + [i for a in appends for i in acfg.nodes_for(a)] + [i for c in imm for i in acfg.nodes_for(c)]
-            ok = bool(gt) and all(acfg.dominated_by(m, set(gt)) for m in mut if m in alive)
-    chk("R-POLICY-TABLE", "unknown policy raises ValueError before any state change", ok, "an unknown policy can modify the router before ValueError is raised", fn="add_rule", node=add_rule)
-    ctx.floor("R-ONE-DESTINATION", 6)
-    ctx.floor("R-SEPARATOR-AGREES", 9)
-    ctx.floor("R-SINK-PAIR", 9)
+    # unknown policy: ValueError, nothing registered, no sink touched (abstract run)
+    from .. import effects
+    add_rule = own_method(ctx, REAL, R, "add_rule")
+    dom_ = effects.EffectDomain(ctx.classes, attrs={"self": ("self",), "self._in_run": "True"}, results={"StreamResultRouter._policies.get": ["None"], "self._policies.get": ["None"]})
+    from ..absint import State as _State
+    res_ = effects.run(ctx, dom_, add_rule, cls, {"sink": ("wobj", "s1"), "policy": ("const", "no-such-policy"), "do_start_stop_run": "True", "policy_args": ("kwdict", ())},
+                       state=_State([("self._sinks", ("tuple",))]))
+    ok = bool(res_) and all(r.kind == "exc" and r.value == ("exc", "ValueError") and r.state.get("self._sinks") == ("tuple",) and not effects.calls(r) for r in res_)
+    chk("R-POLICY-TABLE", "unknown policy raises ValueError before any state change", ok,
+        "an unknown policy does not end in ValueError with the router untouched: " + "; ".join(sorted({f"{r.kind} {r.value!r}, sinks {r.state.get('self._sinks')!r}, calls {[e[0] for e in effects.calls(r)]}" for r in res_})),
+        fn="add_rule", node=add_rule)
+    ctx.floor("R-ONE-DESTINATION", 40, "status scenarios")
+    ctx.floor("R-SEPARATOR-AGREES", 4)
+    ctx.floor("R-SINK-PAIR", 8)
